@@ -166,6 +166,16 @@ CLAIMED = {
             "the reader strconv.Unquote. Does not decide the whole-string round trip for all UTF-8.",
             "finite-domain abstract interpretation of the scanner (path typestate engine over go/ssa), NFA->DFA reasoning on the grammar rule, provenance",
             "DESIGN.md §4 C12"),
+    "C11": ("Structural necessary conditions of meaning-preserving print/re-parse: a four-way agreement table for the 13 operators "
+            "(grammar token literal from Excellent3.g4, operator text of the node's String() format, documented symbol of the "
+            "operators function its Evaluate calls, token accessor under which the visitor builds the node, including default arms); "
+            "every node's String() prints all its Expression fields once in declaration order and Visit covers them; parentheses are "
+            "explicit nodes printed with both brackets; text literals are strconv.Quote of the full value / strconv.Unquote, numbers "
+            "print the decimal's String; refactor.Template copies body text, scans without unescaping, re-wraps inversely to the "
+            "scanner, keeps the original unless the transformer reports a change; ContextRefRename's changed flag is monotone and "
+            "the rename guarded. Does not decide equality of evaluation results.",
+            "sibling-table agreement across grammar text, AST doc tags and go/ssa provenance; shape checks of printers and refactor plumbing",
+            "DESIGN.md §4 C11"),
 }
 
 NOT_APPLICABLE = {}
